@@ -64,15 +64,18 @@ struct Sched {
   void block_on(const void *o) { ensure_main(); th[self()].st = BLK; th[self()].on = o; switch_away(false); }
   void wake_all(const void *o) { for (auto &t : th) if (t.st == BLK && t.on == o) { t.st = RUN; t.on = nullptr; } }
 };
+// A further scheduling point follows every acquisition (the owner may be descheduled while it holds the mutex: threads that need
+// the mutex block, code that wrongly touches the protected state WITHOUT the mutex gets to run), and one precedes the release
+// inside a condition wait (the window between testing the predicate and blocking, where a notify sent without the mutex is lost).
 struct vmutex { bool locked = false;
-  void lock() { auto &S = Sched::I(); S.point(); while (locked) S.block_on(this); locked = true; }
+  void lock() { auto &S = Sched::I(); S.point(); while (locked) S.block_on(this); locked = true; S.point(); }
   void unlock() { locked = false; Sched::I().wake_all(this); } };
 template <class M> struct vunique_lock { M *m; bool owns;
   explicit vunique_lock(M &mm) : m(&mm), owns(true) { m->lock(); } ~vunique_lock() { if (owns) m->unlock(); }
   void unlock() { m->unlock(); owns = false; } void lock() { m->lock(); owns = true; } };
 template <class M> struct vlock_guard { M &m; explicit vlock_guard(M &mm) : m(mm) { m.lock(); } ~vlock_guard() { m.unlock(); } };
 struct vcondvar {
-  template <class L> void wait(L &l) { l.unlock(); Sched::I().block_on(this); l.lock(); }
+  template <class L> void wait(L &l) { Sched::I().point(); l.unlock(); Sched::I().block_on(this); l.lock(); }
   template <class L, class P> void wait(L &l, P p) { while (!p()) wait(l); }
   void notify_all() { Sched::I().wake_all(this); } void notify_one() { Sched::I().wake_all(this); } };
 struct vthread { std::thread t; int id = -1; vthread() {}
